@@ -368,7 +368,8 @@ def float_specs(rep, quick):
         for r in range(1 if quick else 8):
             kind = 'point' if (pi + rep.seed + r) % 2 == 0 else rng.choice(others)
             if pool == 'big' and r == 0:
-                kind = 'point'     # every run meets single-point partitions at 2^53
+                kind = 'point'     # every run meets single-point partitions at 2^53 (zero extent
+                                   # that x + 1.0 cannot widen: repaired in /repo, 7cf01a0)
             els, k2, els2 = float_frame(rng, kind, pool)
             cuts = rng.choice(U.compositions(6)[1:] + [[0, 0, 2, 2, 6], [0, 3, 3, 6]])
             base = ['from_delayed', cuts]
@@ -402,21 +403,6 @@ def float_specs(rep, quick):
 
 def g_or_none0(act):
     return None if act == 'g' else 'h'
-
-
-# sjoin(ddf, right) raises ZeroDivisionError when a partition of the left frame holds a single
-# distinct point with |coordinate| >= 2^53 (HilbertRtree of that partition: x + 1.0 == x, the
-# zero extent cannot be widened) while the pandas join of the whole frame succeeds.  True:
-# reported as the violation 'sjoin-raises:zero-extent-partition-at-2^53'; False: counted in the
-# evidence as an observation (the decision is the framework owner's, see the final report)
-REPORT_ZERO_EXTENT_2_53 = False
-
-
-def zero_extent_at_2_53(pb):
-    for b in np.asarray(pb, dtype='float64').reshape(-1, 4):
-        if not np.isnan(b).any() and b[0] == b[2] and b[1] == b[3] and np.abs(b).max() >= 2.0 ** 53:
-            return True
-    return False
 
 
 def touching_right(bounds_rows, ev):
@@ -953,17 +939,6 @@ def check_frame(ctx, X, spec, expect, ordered, index_kept, must_have=None):
                 djparts = U.compute_parts(dj)
                 djc = dj.compute()
             except Exception as e:
-                if isinstance(e, ZeroDivisionError) and zero_extent_at_2_53(pb):
-                    # finding on the unmodified tree (reported): the partition's own spatial
-                    # index cannot widen a zero extent at |coordinate| >= 2^53
-                    if REPORT_ZERO_EXTENT_2_53:
-                        viol(ctx, 'sjoin-raises:zero-extent-partition-at-2^53',
-                             f'sjoin(ddf, right, how={how!r}) raised ZeroDivisionError: a partition '
-                             'holds a single distinct point with |coordinate| >= 2^53; the pandas '
-                             'join of the concatenated frame succeeds', spec, how=how, right=rname)
-                    else:
-                        rep.count('observation:sjoin-raises-zero-extent-partition-at-2^53')
-                    continue
                 viol(ctx, f'sjoin-raises:{how}:' + last,
                      f'sjoin(ddf, right, how={how!r}) raised {type(e).__name__}: {str(e)[:200]} '
                      'while the pandas join succeeds', spec, how=how, right=rname)
